@@ -46,7 +46,8 @@ type Execution struct {
 type Stats struct {
 	Bound         int
 	Executions    int64 // complete executions (any outcome except pruned)
-	Pruned        int64 // executions cut by the state cache
+	Pruned        int64 // executions cut by the state cache (every option of a decision point already covered)
+	Skipped       int64 // options dropped by the state cache without being executed
 	CacheStates   int64
 	MaxSteps      int
 	MaxGoroutines int
@@ -77,6 +78,7 @@ type controller struct {
 	fixed  []Choice // replay mode: follow exactly this list, then first option
 	replay bool
 	optbuf []option
+	skipped int64 // options dropped by the state cache without being executed
 }
 
 func (c *controller) pick(w *World, prev *G) (*G, int32) {
@@ -130,16 +132,30 @@ func (c *controller) pick(w *World, prev *G) (*G, int32) {
 		return nil, 0
 	}
 	if !c.opts.NoCache {
-		k := cacheKey{k: w.key}
-		if prev != nil && prev.state == gParked && opts[0].c.G == int16(prev.idx) {
-			// continuing prev is free, everything else costs a preemption: prev's identity matters
-			k.prev = prev.id
+		// State cache on predicted successor states: the state reached by an option is identified by the
+		// causal-history key right after the chosen operation (computed without executing it) plus the
+		// goroutine that will be running (continuing it is free at the next decision).  An option whose
+		// successor was already expanded with at least the same remaining budget is dropped.
+		var e effect
+		k := 0
+		for _, o := range opts {
+			g := w.gs[o.c.G]
+			w.effectOf(g, o.c.Alt, &e)
+			ck := cacheKey{k: w.keyAfter(g, &e), prev: g.id}
+			left := int8(remaining - int(o.cost))
+			if r, ok := c.cache[ck]; ok && r >= left {
+				c.skipped++
+				continue
+			}
+			c.cache[ck] = left
+			opts[k] = o
+			k++
 		}
-		if r, ok := c.cache[k]; ok && int(r) >= remaining {
+		opts = opts[:k]
+		if len(opts) == 0 {
 			w.end(Pruned)
 			return nil, 0
 		}
-		c.cache[k] = int8(remaining)
 	}
 	n := node{opts: append([]option(nil), opts...)}
 	c.stack = append(c.stack, n)
@@ -385,6 +401,7 @@ func Explore(body func(), opts Options, onExec func(*Execution) bool) Stats {
 		}
 	}
 	st.CacheStates = int64(len(c.cache))
+	st.Skipped = c.skipped
 	runtime.GC()
 	return st
 }
